@@ -47,14 +47,27 @@ def _run_case(case):
     res = {}
     d.recycle_if_big()
     try:
-        d.cmd('new strict' if case.get('strict') else 'new')
+        if case.get('ctor'):
+            a = d.cmd('ctor %s%s' % (fin, ' strict' if case.get('strict') else ''))
+        else:
+            d.cmd('new strict' if case.get('strict') else 'new')
         if case.get('prior') is not None:
             # the same session object reads another file first
             fp = os.path.join(d.dir, 'prior.stp')
             with open(fp, 'wb') as f:
                 f.write(case['prior'].encode('latin1') if isinstance(case['prior'], str) else case['prior'])
             d.cmd('read ' + fp)
-        a = d.cmd('read ' + fin)
+        if case.get('ctor'):
+            pass
+        elif case.get('append_after') is not None:
+            # the file is APPENDED to a session that already holds another population
+            fp = os.path.join(d.dir, 'first.stp')
+            with open(fp, 'wb') as f:
+                f.write(case['append_after'].encode('latin1') if isinstance(case['append_after'], str) else case['append_after'])
+            d.cmd('read ' + fp)
+            a = d.cmd('append ' + fin)
+        else:
+            a = d.cmd('read ' + fin)
         res.update(drv.kv(a[0]))
         if res['esev'] < 2 or case.get('want_log'):
             res['log'] = d._readlog()[-4000:].decode('latin1')
